@@ -146,6 +146,7 @@ Section SliceLoop.
   (** the loop over the source dictionary, for a body that does per key what the code does *)
   Definition key_spec (body : str * jv -> jv -> res (ctl (unit * jv) jv)) : Prop :=
     forall (o : list (str * jv)) (k : key) (vs : list jv),
+      (forall sub, slice_subset ns_o dm idx vs = Ok sub -> (length sub = 1 <-> dest = GConst)) ->
       body (k, JArr vs) (JObj o) =
       bind (slice_subset ns_o dm idx vs) (fun sub =>
       bind (dyn_set2 (JObj o) (@fst str str (name_of_cls dest)) (@snd str str (name_of_cls dest)) k (render dest sub)) (fun st1 =>
@@ -162,7 +163,8 @@ Section SliceLoop.
   Proof.
     intros Hb. induction d as [|[k vs] r IH]; intros o f HH Hnd Hfresh Hgood.
     - cbn [slice_fold map py_for]. exists o. split; [reflexivity | exact HH].
-    - cbn [slice_fold map py_for fst snd]. rewrite Hb.
+    - cbn [slice_fold map py_for fst snd].
+      rewrite Hb by (intros sub Hs; exact (proj1 (Hgood k vs sub (or_introl eq_refl) Hs))).
       destruct (slice_subset ns_o dm idx vs) as [sub|e] eqn:Esub; [|reflexivity]. cbn [bind].
       assert (Hfk : f k = None) by (apply Hfresh; left; reflexivity).
       pose proof (store_simplify o f k sub HH Hfk (Hgood k vs sub (or_introl eq_refl) Esub)) as Hss.
@@ -173,7 +175,231 @@ Section SliceLoop.
         * intros k' Hk'. unfold upd, key_eqb. destruct (str_eqb k' k) eqn:E.
           -- apply str_eqb_eq in E. subst k'. contradiction.
           -- apply Hfresh. right. exact Hk'.
-        * intros k' vs' sub' Hin. apply Hgood. right. exact Hin.
+        * intros k' vs' sub' Hin Hs. apply (Hgood k' vs' sub'); [right; exact Hin | exact Hs].
       + destruct Hss as [o1 [E1 E2]]. rewrite E1. cbn [bind]. unfold simplify_run in E2. rewrite E2. reflexivity.
   Qed.
 End SliceLoop.
+
+(** the search of the destination class: `for classes in (...): if classes in self.get_valid_classes(): dest_class = classes; break` *)
+Lemma dest_loop {R} (hr : hdr) (l : list cls) : ndim_ok hr = true ->
+  py_for_b (map name_of_cls l) (@None (str * str))
+    (fun classes dest_class__o =>
+       bind (get_valid_classes_src classifications (shape hr)) (fun t =>
+       if py_in (py_pair_eqb str_eqb str_eqb) classes t then Ok (BrkB (Some classes)) else Ok (NextB dest_class__o)))
+  = Ok (match first_valid hr l with Some d => @BrkB R _ (Some (name_of_cls d)) | None => NextB None end).
+Proof.
+  intros Hok. unfold first_valid.
+  match goal with |- py_for_b _ _ ?b = _ => set (body := b) end.
+  assert (Hb : forall d s, body (name_of_cls d) s = Ok (if class_valid hr d then BrkB (Some (name_of_cls d)) else NextB s)).
+  { intros d s. unfold body. rewrite get_valid_classes_src_eq, Hok. cbn [bind]. rewrite py_in_names. fold (class_valid hr d).
+    destruct (class_valid hr d); reflexivity. }
+  clearbody body. induction l as [|d r IH]; [reflexivity|].
+  cbn [map py_for_b find]. rewrite Hb. destruct (class_valid hr d); cbn [bind]; [reflexivity | exact IH].
+Qed.
+
+Lemma global_dests_names : [([116; 105; 109; 101]%N, [115; 97; 109; 112; 108; 101; 115]%N);
+                            ([118; 101; 99; 116; 111; 114]%N, [115; 97; 109; 112; 108; 101; 115]%N);
+                            ([103; 108; 111; 98; 97; 108]%N, [99; 111; 110; 115; 116]%N)] = map name_of_cls copy_slice_global_dests_c.
+Proof. reflexivity. Qed.
+Lemma vector_dests_names : [([116; 105; 109; 101]%N, [115; 97; 109; 112; 108; 101; 115]%N);
+                            ([103; 108; 111; 98; 97; 108]%N, [99; 111; 110; 115; 116]%N)] = map name_of_cls copy_slice_vector_dests_c.
+Proof. reflexivity. Qed.
+
+(** the body of the loop over the source dictionary, as the translation writes it (the main theorem checks by conversion
+    that this IS the generated body) *)
+Local Open Scope res_scope.
+Definition slice_body (hr : hdr) (stride : option nat) (dcn : (str * str)%type) (dm idx : nat)
+  : str * jv -> jv -> res (ctl (unit * jv) jv) :=
+  fun '(key, vals) st__ =>
+          do t__57 <- dyn_slice_step (Some (BPos idx)) None (match stride with Some n__ => n__ | None => 1%nat end) vals;
+          let subset_vals := t__57 in
+          do t__58 <- dyn_len subset_vals;
+          if (Nat.ltb t__58 dm) then
+            let full_vals := (@nil _) in
+            do t__59 <- dyn_len subset_vals;
+            do t__60 <- py_floordiv dm t__59;
+            do c__62 <- py_for (py_range 0 t__60) full_vals (fun val_idx full_vals =>
+                do t__61 <- dyn_iter subset_vals;
+                let full_vals := (full_vals ++ t__61) in
+                Ok (Next full_vals)
+              );
+            match c__62 with
+            | Ret rv__66 => Ok (Ret rv__66)
+            | Next full_vals =>
+              let subset_vals := full_vals in
+              if (Nat.eqb (List.length subset_vals) 1%nat) then
+                do t__63 <- py_index subset_vals (BPos 0%nat);
+                let subset_vals := t__63 in
+                do st__ <- dyn_set2 st__ (fst dcn) (snd dcn) key subset_vals;
+                do p__64 <- simplify_st classifications (shape hr) (n_slices hr) (okeys const_tests) (okeys repeat_tests) st__ key;
+                let st__ := (snd p__64) in
+                Ok (Next st__)
+              else
+                do st__ <- dyn_set2 st__ (fst dcn) (snd dcn) key (JArr subset_vals);
+                do p__65 <- simplify_st classifications (shape hr) (n_slices hr) (okeys const_tests) (okeys repeat_tests) st__ key;
+                let st__ := (snd p__65) in
+                Ok (Next st__)
+            end
+          else
+            do t__67 <- dyn_len subset_vals;
+            if (Nat.eqb t__67 1%nat) then
+              do t__68 <- dyn_getidx subset_vals (BPos 0%nat);
+              let subset_vals := t__68 in
+              do st__ <- dyn_set2 st__ (fst dcn) (snd dcn) key subset_vals;
+              do p__69 <- simplify_st classifications (shape hr) (n_slices hr) (okeys const_tests) (okeys repeat_tests) st__ key;
+              let st__ := (snd p__69) in
+              Ok (Next st__)
+            else
+              do st__ <- dyn_set2 st__ (fst dcn) (snd dcn) key subset_vals;
+              do p__70 <- simplify_st classifications (shape hr) (n_slices hr) (okeys const_tests) (okeys repeat_tests) st__ key;
+              let st__ := (snd p__70) in
+              Ok (Next st__).
+Local Close Scope res_scope.
+
+Lemma render_one (dest : cls) (v : jv) : dest = GConst -> render dest [v] = v.
+Proof. intros ->. reflexivity. Qed.
+Lemma render_many (dest : cls) (sub : list jv) : dest <> GConst -> render dest sub = JArr sub.
+Proof. intros H. destruct dest; try reflexivity. contradiction. Qed.
+
+Lemma slice_body_spec (hr : hdr) (ns_o : option nat) (dest : cls) (dm idx : nat) :
+  key_spec hr ns_o dest dm idx (slice_body hr ns_o (name_of_cls dest) dm idx).
+Proof.
+  intros o k vs Hl. unfold slice_body. cbv beta iota. unfold slice_subset in *.
+  destruct ns_o as [[|n]|]; cbn [dyn_slice_step Nat.eqb bind]; try reflexivity.
+  - (* stride n+1 *)
+    rewrite py_every_skip by lia. cbv zeta. cbn [dyn_len bind]. cbn [bind] in Hl.
+    set (subset := every_nth idx (S n) vs) in *.
+    destruct (Nat.ltb (length subset) dm) eqn:Elt.
+    + cbn [dyn_len bind]. unfold py_floordiv. destruct (Nat.eqb (length subset) 0) eqn:E0; [reflexivity|].
+      cbn [bind]. rewrite rep_list_loop. cbn [bind]. cbv zeta.
+      set (full := rep_list (dm / length subset) subset) in *.
+      specialize (Hl full eq_refl).
+      destruct (Nat.eqb (length full) 1) eqn:E1.
+      * apply Nat.eqb_eq in E1. pose proof (proj1 Hl E1) as Hd.
+        destruct full as [|v [|w r]]; try discriminate E1. cbn [PyOps2.py_index nth_error bind]. rewrite (render_one dest v Hd). reflexivity.
+      * apply Nat.eqb_neq in E1. rewrite (render_many dest full); [reflexivity|]. intros Hd. apply E1. apply (proj2 Hl). exact Hd.
+    + cbn [dyn_len bind]. cbv zeta. specialize (Hl subset eq_refl).
+      destruct (Nat.eqb (length subset) 1) eqn:E1.
+      * apply Nat.eqb_eq in E1. pose proof (proj1 Hl E1) as Hd.
+        destruct subset as [|v [|w r]]; try discriminate E1. cbn [dyn_getidx PyOps2.py_index nth_error bind]. rewrite (render_one dest v Hd). reflexivity.
+      * apply Nat.eqb_neq in E1. rewrite (render_many dest subset); [reflexivity|]. intros Hd. apply E1. apply (proj2 Hl). exact Hd.
+  - (* no slice dimension on the source: stride 1 *)
+    rewrite py_every_skip by lia. cbv zeta. cbn [dyn_len bind]. cbn [bind] in Hl.
+    set (subset := every_nth idx 1 vs) in *.
+    destruct (Nat.ltb (length subset) dm) eqn:Elt.
+    + cbn [dyn_len bind]. unfold py_floordiv. destruct (Nat.eqb (length subset) 0) eqn:E0; [reflexivity|].
+      cbn [bind]. rewrite rep_list_loop. cbn [bind]. cbv zeta.
+      set (full := rep_list (dm / length subset) subset) in *.
+      specialize (Hl full eq_refl).
+      destruct (Nat.eqb (length full) 1) eqn:E1.
+      * apply Nat.eqb_eq in E1. pose proof (proj1 Hl E1) as Hd.
+        destruct full as [|v [|w r]]; try discriminate E1. cbn [PyOps2.py_index nth_error bind]. rewrite (render_one dest v Hd). reflexivity.
+      * apply Nat.eqb_neq in E1. rewrite (render_many dest full); [reflexivity|]. intros Hd. apply E1. apply (proj2 Hl). exact Hd.
+    + cbn [dyn_len bind]. cbv zeta. specialize (Hl subset eq_refl).
+      destruct (Nat.eqb (length subset) 1) eqn:E1.
+      * apply Nat.eqb_eq in E1. pose proof (proj1 Hl E1) as Hd.
+        destruct subset as [|v [|w r]]; try discriminate E1. cbn [dyn_getidx PyOps2.py_index nth_error bind]. rewrite (render_one dest v Hd). reflexivity.
+      * apply Nat.eqb_neq in E1. rewrite (render_many dest subset); [reflexivity|]. intros Hd. apply E1. apply (proj2 Hl). exact Hd.
+Qed.
+
+(** what follows the choice of the destination class, as the translation writes it *)
+Local Open Scope res_scope.
+Definition slice_tail (hr : hdr) (ns_o : option nat) (ost : jv) (srcn destn : (str * str)%type) (idx : nat) (st : jv) : res (unit * jv) :=
+  do t1 <- get_class_dict_st ost srcn;
+  do t2 <- get_class_dict_st st destn;
+  do dm <- get_multiplicity_src classifications (shape hr) (n_slices hr) destn;
+  do items <- dyn_items t1;
+  do c <- py_for items st (slice_body hr ns_o destn dm idx);
+  match c with Ret rv => Ok rv | Next st' => Ok (tt, st') end.
+Local Close Scope res_scope.
+
+Lemma get_class_dict_st_nobase (o : list (str * jv)) (h : hdr) (g : cls -> key -> option jv) (c : cls) :
+  HoldsW o h g -> has_base h (base_of c) = false -> get_class_dict_st (JObj o) (name_of_cls c) = Err EKey.
+Proof.
+  intros HH Hb. unfold get_class_dict_st. cbn [name_of_cls]. cbv iota beta. cbn [dyn_getitem].
+  rewrite (hw_nobase _ _ _ HH _ Hb). reflexivity.
+Qed.
+
+Lemma slice_tail_ref (o : list (str * jv)) (hr : hdr) (f : key -> kst jv) (ns_o : option nat) (ost : jv) (c dest : cls) (idx : nat)
+      (d : list (key * list jv)) :
+  Holds o hr f -> ndim_ok hr = true -> bases_ok hr ->
+  get_class_dict_st ost (name_of_cls c) = Ok (JObj (map (fun kv => (fst kv, JArr (snd kv))) d)) ->
+  NoDup (map fst d) -> (forall k, In k (map fst d) -> f k = None) ->
+  (forall dm k vs sub, multiplicity hr dest = Ok dm -> In (k, vs) d -> slice_subset ns_o dm idx vs = Ok sub -> slice_ok hr dest sub) ->
+  match (if negb (has_base hr (base_of dest)) then Err EKey
+         else bind (multiplicity hr dest) (fun dm => slice_fold hr ns_o dest dm idx d f)) with
+  | Ok f' => exists o', slice_tail hr ns_o ost (name_of_cls c) (name_of_cls dest) idx (JObj o) = Ok (tt, JObj o') /\ Holds o' hr f'
+  | Err e => slice_tail hr ns_o ost (name_of_cls c) (name_of_cls dest) idx (JObj o) = Err e
+  end.
+Proof.
+  intros HH Hok Hbases Hsrc Hnd Hfresh Hgood. unfold slice_tail. rewrite Hsrc. cbn [bind].
+  destruct (has_base hr (base_of dest)) eqn:Hbd; cbn [negb].
+  2:{ rewrite (get_class_dict_st_nobase o hr _ dest HH Hbd). reflexivity. }
+  destruct (hw_dict _ _ _ HH dest Hbd) as [dd [Hdd _]].
+  rewrite (get_class_dict_st_ok o dest dd Hdd). cbn [bind]. rewrite get_multiplicity_src_eq.
+  destruct (multiplicity hr dest) as [dm|e] eqn:Em; [|reflexivity]. cbn [bind dyn_items].
+  pose proof (slice_loop hr ns_o dest dm idx Hok Hbases Hbd _ d (slice_body_spec hr ns_o dest dm idx) o f HH Hnd Hfresh
+                         (fun k vs sub => Hgood dm k vs sub eq_refl)) as Hloop.
+  destruct (slice_fold hr ns_o dest dm idx d f) as [f'|e].
+  - destruct Hloop as [o' [E H]]. exists o'. split; [|exact H]. unfold key in *. rewrite E. reflexivity.
+  - unfold key in *. rewrite Hloop. reflexivity.
+Qed.
+
+Theorem copy_slice_st_ref (o : list (str * jv)) (hr : hdr) (f : key -> kst jv) (ns_o : option nat) (ost : jv) (c : cls) (idx : nat)
+        (d : list (key * list jv)) :
+  Holds o hr f -> ndim_ok hr = true -> bases_ok hr ->
+  get_class_dict_st ost (name_of_cls c) = Ok (JObj (map (fun kv => (fst kv, JArr (snd kv))) d)) ->
+  NoDup (map fst d) -> (forall k, In k (map fst d) -> f k = None) ->
+  (forall dest dm k vs sub, slice_dest hr c = Ok dest -> multiplicity hr dest = Ok dm -> In (k, vs) d ->
+                            slice_subset ns_o dm idx vs = Ok sub -> slice_ok hr dest sub) ->
+  match copy_slice_all hr ns_o c idx d f with
+  | Ok f' => exists o', copy_slice_st classifications (shape hr) (n_slices hr) (okeys const_tests) (okeys repeat_tests) (JObj o)
+                                      ns_o ost (name_of_cls c) idx = Ok (tt, JObj o') /\ Holds o' hr f'
+  | Err e => copy_slice_st classifications (shape hr) (n_slices hr) (okeys const_tests) (okeys repeat_tests) (JObj o)
+                           ns_o ost (name_of_cls c) idx = Err e
+  end.
+Proof.
+  intros HH Hok Hbases Hsrc Hnd Hfresh Hgood. unfold copy_slice_all.
+  assert (Htail : forall dest, slice_dest hr c = Ok dest ->
+     match (if negb (has_base hr (base_of dest)) then Err EKey
+            else bind (multiplicity hr dest) (fun dm => slice_fold hr ns_o dest dm idx d f)) with
+     | Ok f' => exists o', slice_tail hr ns_o ost (name_of_cls c) (name_of_cls dest) idx (JObj o) = Ok (tt, JObj o') /\ Holds o' hr f'
+     | Err e => slice_tail hr ns_o ost (name_of_cls c) (name_of_cls dest) idx (JObj o) = Err e
+     end).
+  { intros dest Hd. apply (slice_tail_ref o hr f ns_o ost c dest idx d HH Hok Hbases Hsrc Hnd Hfresh).
+    intros dm k vs sub. apply Hgood. exact Hd. }
+  unfold slice_dest in *.
+  destruct (base_of c) eqn:Ebase.
+  - (* global: search among time samples / vector samples / global const *)
+    assert (Hcode : copy_slice_st classifications (shape hr) (n_slices hr) (okeys const_tests) (okeys repeat_tests) (JObj o)
+                                  ns_o ost (name_of_cls c) idx
+                    = match first_valid hr copy_slice_global_dests_c with
+                      | Some dest => slice_tail hr ns_o ost (name_of_cls c) (name_of_cls dest) idx (JObj o)
+                      | None => bind (get_class_dict_st ost (name_of_cls c)) (fun _ => Err ECrash)
+                      end).
+    { unfold copy_slice_st. destruct c; try discriminate Ebase;
+        cbn [name_of_cls base_of sub_of name_of_base fst str_eqb s_global s_time s_vector N.eqb Pos.eqb andb];
+        rewrite global_dests_names, (dest_loop hr _ Hok); destruct (first_valid hr copy_slice_global_dests_c); reflexivity. }
+    rewrite Hcode. destruct (first_valid hr copy_slice_global_dests_c) as [dest|]; cbn [bind].
+    + exact (Htail dest eq_refl).
+    + rewrite Hsrc. reflexivity.
+  - (* time: global const *)
+    assert (Hcode : copy_slice_st classifications (shape hr) (n_slices hr) (okeys const_tests) (okeys repeat_tests) (JObj o)
+                                  ns_o ost (name_of_cls c) idx
+                    = slice_tail hr ns_o ost (name_of_cls c) (name_of_cls GConst) idx (JObj o)).
+    { unfold copy_slice_st. destruct c; try discriminate Ebase; reflexivity. }
+    rewrite Hcode. cbn [bind]. exact (Htail GConst eq_refl).
+  - (* vector: search among time samples / global const *)
+    assert (Hcode : copy_slice_st classifications (shape hr) (n_slices hr) (okeys const_tests) (okeys repeat_tests) (JObj o)
+                                  ns_o ost (name_of_cls c) idx
+                    = match first_valid hr copy_slice_vector_dests_c with
+                      | Some dest => slice_tail hr ns_o ost (name_of_cls c) (name_of_cls dest) idx (JObj o)
+                      | None => bind (get_class_dict_st ost (name_of_cls c)) (fun _ => Err ECrash)
+                      end).
+    { unfold copy_slice_st. destruct c; try discriminate Ebase;
+        cbn [name_of_cls base_of sub_of name_of_base fst str_eqb s_global s_time s_vector N.eqb Pos.eqb andb];
+        rewrite vector_dests_names, (dest_loop hr _ Hok); destruct (first_valid hr copy_slice_vector_dests_c); reflexivity. }
+    rewrite Hcode. destruct (first_valid hr copy_slice_vector_dests_c) as [dest|]; cbn [bind].
+    + exact (Htail dest eq_refl).
+    + rewrite Hsrc. reflexivity.
+Qed.
